@@ -25,21 +25,16 @@ NP_DTYPE = {"int": "int64", "float": "float64"}
 
 
 def repeat_alarm(seconds: float, every: float = 2.0):
-    """The runner arms a one-shot SIGALRM per case. While `IndexMap`'s collision loop spins inside pandas, the
-    exception raised by that one signal can be swallowed (an `except Exception` inside pandas, a finalizer) and the
-    case would then hang for good (seen once under mutants/C03/break-modulus-off-by-one). Re-arm the same timer with
-    an interval, so the alarm keeps coming until the runner disarms it (`signal.alarm(0)` clears the interval too)."""
-    import os
+    """Tighten the runner's per-case budget for this case. The budget is CPU time of the process (ITIMER_PROF, handled
+    by the runner as `CaseTimeout`): `IndexMap`'s collision loop spins when it hangs, so it uses the budget up, while
+    a machine oversubscribed by other checks does not (at a load average of 160 on 16 cores honest cases used to be
+    reported as `timeout` under a wall-clock deadline). The timer repeats, because the exception raised by a single
+    signal can be swallowed inside pandas while the loop keeps spinning (seen once under
+    mutants/C03/break-modulus-off-by-one); the runner disarms it after the case."""
     import signal
     try:
-        # the deadline is wall time: stretch it by the machine's load (selftest runs several checks side by side; at a
-        # load average of 160 on 16 cores honest cases took longer than the 10 s budget and were reported as `timeout`)
-        seconds = float(seconds) * min(6.0, max(1.0, os.getloadavg()[0] / (os.cpu_count() or 1)))
-    except OSError:
-        pass
-    try:
-        signal.setitimer(signal.ITIMER_REAL, float(seconds), float(every))
-    except (ValueError, OSError):      # not in the main thread: leave the runner's alarm alone
+        signal.setitimer(signal.ITIMER_PROF, float(seconds), float(every))
+    except (ValueError, OSError):      # not in the main thread: leave the runner's timers alone
         pass
 
 
